@@ -155,4 +155,3 @@ package dvid
 //@   prop C18
 //@   lemma
 //@   ensures err == nil && out.start[0] == in.start[0] && out.start[1] == in.start[1] && out.start[2] == in.start[2] && out.length == in.length
-
